@@ -122,6 +122,22 @@ pub fn run(args: &Args) {
         // a small set of "hot" controls per history makes overlaps between sources likely
         let hot: Vec<usize> = (0..6).map(|_| r.below(40) as usize).collect();
         for step_i in 0..len {
+            // now and then the host does something that is not an input event - it loads a snapshot (a program is started
+            // while keys are down) or switches the sound: what is held stays held, by the source that holds it
+            if r.chance(1, 10) {
+                use crate::files::*;
+                use rustzx_core::host::Snapshot;
+                let op = r.below(4);
+                let d = MachineDesc { m128, cpu: CpuDesc { pc: CODE, sp: 0xBF00, im: 1, ..Default::default() }, border: 1, latch: 0, banks: vec![vec![0u8; 16384]; 8] };
+                match op {
+                    0 => emu.load_snapshot(Snapshot::Sna(VAsset::new(if m128 { sna128(&d) } else { sna48(&d) }))).expect("sna"),
+                    1 => emu.load_snapshot(Snapshot::Szx(VAsset::new(szx(&d, &SzxOpts::default())))).expect("szx"),
+                    2 => emu.set_sound(r.chance(1, 2)),
+                    _ => emu.set_ay_enabled(r.chance(1, 2)),
+                }
+                poke_bytes(&mut emu, CODE, &[0xED, 0x78]);
+                out.ev(json!({"ev":"hostop","op":op}));
+            }
             match r.below(if mouse { 9 } else { 6 }) {
                 0 | 1 => {
                     let k = if r.chance(2, 3) {
